@@ -39,7 +39,7 @@ def gen_op(rng, ix, a, allow):
     if nd == 3:
         cands = ["copy", "sliced", "slices1d", "sliced", "slices1d"]
     if any(e == 0 for e in ix.shape[1:]):   # degenerate zero-extent axes: argument generators have nothing to draw
-        cands = ["copy", "shift_common"]
+        cands = ["copy", "shift_common"] + (["collapsed"] if nd == 2 else [])
     cands = [c for c in cands if allow is None or c in allow]
     return rng.choice(cands) if cands else None
 
@@ -398,6 +398,10 @@ def enumerate_bases():
                 a = np.array(data, dtype=np.int64).reshape(shape)
                 for c in range(4):
                     yield G.make_index(a, c), a
+    for N in range(1, 4):        # rows without any column (what `sliced([])` leaves): every row holds no value at all
+        a = np.zeros((N, 0), dtype=np.int64)
+        for c in range(3):
+            yield G.make_index(a, c), a
 
 
 def drive(ctx, prop, check_model=True):
@@ -429,9 +433,12 @@ def drive(ctx, prop, check_model=True):
         nb += 1
         if ctx.scale == 1 and nb % 3 != ctx.seed % 3:
             continue
-        for op in ["copy", "shift_common", "shift_common_v", "append", "update", "filtered", "reindexed",
-                   "union_update", "intersection_update", "difference_update", "column_stack", "queries"] + (
-                       ["sliced", "slices1d", "collapsed"] if len(ix.shape) == 2 else []):
+        ops = ["copy", "shift_common", "shift_common_v", "append", "update", "filtered", "reindexed",
+               "union_update", "intersection_update", "difference_update", "column_stack", "queries"] + (
+                   ["sliced", "slices1d", "collapsed"] if len(ix.shape) == 2 else [])
+        if any(e == 0 for e in ix.shape[1:]):
+            ops = ["copy", "shift_common", "collapsed", "collapsed", "collapsed"]
+        for op in ops:
             ix2 = I.from_json(I.to_json(ix))
             st, nix, na = apply_step(ctx.rng, ix2, a.copy(), op)
             steps = [st]
